@@ -98,23 +98,28 @@ func (k *VerifKeeper) Reservations() []*VerifReservation {
 	return out
 }
 
-// VerifSnapshot is an opaque copy of the keeper's own reservation state.
+// VerifSnapshot is an opaque copy of the keeper's own state (reservations, index, unconfirmed set).
 type VerifSnapshot struct {
 	next         uint64
 	reserved     map[bc.Hash]uint64
 	reservations map[uint64]*reservation
+	unconfirmed  map[bc.Hash]*UTXO
 }
 
-// Snapshot copies nextIndex and both maps (reservation records are never mutated after creation).
+// Snapshot copies nextIndex and the three maps (reservation and UTXO records are never mutated after creation).
 func (k *VerifKeeper) Snapshot() *VerifSnapshot {
 	k.uk.mtx.RLock()
 	defer k.uk.mtx.RUnlock()
-	s := &VerifSnapshot{next: k.uk.nextIndex, reserved: make(map[bc.Hash]uint64, len(k.uk.reserved)), reservations: make(map[uint64]*reservation, len(k.uk.reservations))}
+	s := &VerifSnapshot{next: k.uk.nextIndex, reserved: make(map[bc.Hash]uint64, len(k.uk.reserved)),
+		reservations: make(map[uint64]*reservation, len(k.uk.reservations)), unconfirmed: make(map[bc.Hash]*UTXO, len(k.uk.unconfirmed))}
 	for h, id := range k.uk.reserved {
 		s.reserved[h] = id
 	}
 	for id, r := range k.uk.reservations {
 		s.reservations[id] = r
+	}
+	for h, u := range k.uk.unconfirmed {
+		s.unconfirmed[h] = u
 	}
 	return s
 }
@@ -132,13 +137,17 @@ func (k *VerifKeeper) Restore(s *VerifSnapshot) {
 	for id, r := range s.reservations {
 		k.uk.reservations[id] = r
 	}
+	k.uk.unconfirmed = make(map[bc.Hash]*UTXO, len(s.unconfirmed))
+	for h, u := range s.unconfirmed {
+		k.uk.unconfirmed[h] = u
+	}
 }
 
 // Unchanged reports whether the keeper's state is exactly the one copied into s.
 func (k *VerifKeeper) Unchanged(s *VerifSnapshot) bool {
 	k.uk.mtx.RLock()
 	defer k.uk.mtx.RUnlock()
-	if k.uk.nextIndex != s.next || len(k.uk.reserved) != len(s.reserved) || len(k.uk.reservations) != len(s.reservations) {
+	if k.uk.nextIndex != s.next || len(k.uk.reserved) != len(s.reserved) || len(k.uk.reservations) != len(s.reservations) || len(k.uk.unconfirmed) != len(s.unconfirmed) {
 		return false
 	}
 	for h, id := range k.uk.reserved {
@@ -151,5 +160,25 @@ func (k *VerifKeeper) Unchanged(s *VerifSnapshot) bool {
 			return false
 		}
 	}
+	for h, u := range k.uk.unconfirmed {
+		if su, ok := s.unconfirmed[h]; !ok || su != u {
+			return false
+		}
+	}
 	return true
+}
+
+// HasUnconfirmed reports whether the unconfirmed set holds the output.
+func (k *VerifKeeper) HasUnconfirmed(h bc.Hash) bool {
+	k.uk.mtx.RLock()
+	defer k.uk.mtx.RUnlock()
+	_, ok := k.uk.unconfirmed[h]
+	return ok
+}
+
+// UnconfirmedCount is the size of the unconfirmed set.
+func (k *VerifKeeper) UnconfirmedCount() int {
+	k.uk.mtx.RLock()
+	defer k.uk.mtx.RUnlock()
+	return len(k.uk.unconfirmed)
 }
